@@ -23,6 +23,13 @@ impl AbstractInstructionSet {
         data_section: &DataSection,
         level: OptLevel,
     ) -> AbstractInstructionSet {
+        #[cfg(feature = "fuellabs_sway_verif")]
+        {
+            if crate::verif_hooks::asmopt::skip_optimize() {
+                return self;
+            }
+            crate::verif_hooks::asmopt::observe(&self, data_section, level);
+        }
         match level {
             // On debug builds do a single pass through the simple optimizations
             OptLevel::Opt0 => self
